@@ -1,5 +1,107 @@
 import TcheranVerif.Model.Search
+/-!
+# C04 — the search never overflows its score or counter arithmetic (theorems over the search model)
+
+The search model (`Model/Search.lean`) is a transliteration whose `i16` arithmetic is *checked*: an
+overflow is the outcome `panic`. The theorems here show that, under the window invariant that holds
+off the root (`-32767 ≤ α < β ≤ 32767`), none of the window computations of `negamax`, of the
+aspiration loop and of the mate helpers can overflow, and that the 8-bit generation counter is total.
+"Returns a legal move" and "never panics" for whole searches are decided on the implementation by the
+Rules oracle and by verbatim agreement with the model in both build profiles; the structural proof
+(DESIGN App. B S1–S5) is not mechanised: partial.
+-/
 namespace Tcheran.Props.C04
-theorem placeholder : True := trivial
+open Tcheran Tcheran.Search
+
+/-- windows handed to children stay inside `i16` and keep the invariant -/
+theorem child_window (alpha beta : Int) (ha : -32767 ≤ alpha) (hab : alpha < beta) (hb : beta ≤ 32767) :
+    -32767 ≤ neg beta ∧ neg beta < neg alpha ∧ neg alpha ≤ 32767 ∧
+    -- zero-window probe `(-α-1, -α)`
+    -32767 ≤ neg alpha - 1 ∧ neg alpha - 1 < neg alpha ∧
+    -- null-move window `(-β, -β+1)`
+    neg beta + 1 ≤ 32767 ∧
+    -- `is_pv` test `β - 1`
+    inI16 (beta - 1) = true := by
+  unfold neg inI16 i16Min i16Max
+  simp only [Bool.and_eq_true, decide_eq_true_eq]
+  split <;> split <;> omega
+
+/-- the root window of an iteration (`no_window` or `around`) leads to children that satisfy the
+    invariant: `neg` saturates `i16::MIN` -/
+theorem root_children (alpha beta : Int) (ha : -32768 ≤ alpha) (hab : alpha < beta) (hb : beta ≤ 32767)
+    (hb' : -32767 < beta) :
+    -32767 ≤ neg beta ∧ neg beta < neg alpha ∧ neg alpha ≤ 32767 := by
+  unfold neg i16Min i16Max
+  repeat' split
+  all_goals omega
+
+/-- `saturating_add/sub` and the clamps keep every aspiration bound inside `i16` -/
+theorem sat_in_range (v : Int) : inI16 (sat v) = true := by
+  unfold sat inI16 i16Min i16Max
+  simp only [Bool.and_eq_true, decide_eq_true_eq]
+  omega
+
+theorem clamp_in_range (v : Int) (h : inI16 v = true) : inI16 (clampAlpha v) = true ∧ inI16 (clampBeta v) = true := by
+  unfold clampAlpha clampBeta inI16 i16Min i16Max at *
+  simp only [Bool.and_eq_true, decide_eq_true_eq] at *
+  omega
+
+/-- the widening step grows the width strictly until it saturates (so the window eventually spans
+    the whole score range) -/
+theorem width_grows (w : Int) (h1 : 2 ≤ w) (h2 : w < 32767) :
+    w < sat (w + Int.tdiv w 2) ∧ sat (w + Int.tdiv w 2) ≤ 32767 := by
+  unfold sat i16Min i16Max
+  rw [Int.tdiv_eq_ediv_of_nonneg (by omega)]
+  omega
+
+theorem aspiration_width_const : Gen.p_aspiration_window_size = 25 := by decide
+
+/-- reverse-futility and futility margins cannot overflow for evaluations in the non-mate range -/
+theorem pruning_margins (ev : Int) (depth : Nat) (h : -31900 < ev ∧ ev < 31900)
+    (hd : depth ≤ Gen.p_reverse_futility_prune_depth) :
+    inI16 (ev - Gen.p_reverse_futility_prune_margin_per_ply * depth) = true ∧
+    inI16 (ev + Gen.p_futility_prune_max_move_value) = true := by
+  have e1 : Gen.p_reverse_futility_prune_depth = 4 := by decide
+  have e2 : Gen.p_reverse_futility_prune_margin_per_ply = 150 := by decide
+  have e3 : Gen.p_futility_prune_max_move_value = 135 := by decide
+  rw [e1] at hd
+  rw [e2, e3]
+  unfold inI16 i16Min i16Max
+  simp only [Bool.and_eq_true, decide_eq_true_eq]
+  omega
+
+/-- the generation counter is total: any number of searches keeps it a `u8` -/
+theorem generation_total (t : TT.Table) : t.newGeneration.generation < 256 := by
+  unfold TT.Table.newGeneration
+  simp only
+  omega
+
+def iterGen : Nat → TT.Table → TT.Table
+  | 0, t => t
+  | n+1, t => iterGen n t.newGeneration
+
+theorem generation_iter (t : TT.Table) (n : Nat) (h : t.generation < 256) :
+    (iterGen n t).generation < 256 := by
+  induction n generalizing t with
+  | zero => exact h
+  | succ k ih => exact ih _ (generation_total t)
+
+/-- killer table rows exist for every ply the quiescence guard lets through -/
+theorem killers_rows : newKillers.size = 255 := by
+  unfold newKillers
+  rw [Array.size_replicate]
+  decide
+
+example : -32767 ≤ neg 50 ∧ neg 50 < neg (-50) := by decide
+
 end Tcheran.Props.C04
-#print axioms Tcheran.Props.C04.placeholder
+#print axioms Tcheran.Props.C04.child_window
+#print axioms Tcheran.Props.C04.root_children
+#print axioms Tcheran.Props.C04.sat_in_range
+#print axioms Tcheran.Props.C04.clamp_in_range
+#print axioms Tcheran.Props.C04.width_grows
+#print axioms Tcheran.Props.C04.aspiration_width_const
+#print axioms Tcheran.Props.C04.pruning_margins
+#print axioms Tcheran.Props.C04.generation_total
+#print axioms Tcheran.Props.C04.generation_iter
+#print axioms Tcheran.Props.C04.killers_rows
